@@ -144,7 +144,9 @@ func C15Scenarios(tier string) []*h.Scenario {
 		if eff == "" {
 			name = "c15.effect-default"
 		}
-		s := &h.Scenario{Name: name, Groups: []h.GroupSpec{g}, Slots: 8, Quantum: Q, MaxEventsPerSlot: 2}
+		// a failing DescribeAutoScalingGroups makes RunOnce sleep 5 s before scanning: taint values
+		// must carry the time of tainting, not of the scan's start
+		s := &h.Scenario{Name: name, Groups: []h.GroupSpec{g}, Slots: 8, Quantum: Q, MaxEventsPerSlot: 2, FaultOps: map[string]bool{sim.OpDescribeASG: true}}
 		s.Init = func(hh *h.Hist) {
 			a := InitASGs(hh)[0]
 			f1 := v1.Taint{Key: "dedicated", Value: "batch", Effect: v1.TaintEffectNoSchedule}
@@ -298,6 +300,6 @@ func init() {
 		Prune:       true,
 		Nontrivial:  seenKeys,
 		Assumptions: commonAssumptions,
-		Alphabet:    []string{"grid over node shapes", "ext-taint(i, now-1q)", "ext-untaint(i)", "stale-view", "burst", "clear-pods", "restart", "skip-settle"},
+		Alphabet:    []string{"grid over node shapes", "ext-taint(i, now-1q)", "ext-untaint(i)", "stale-view", "burst", "clear-pods", "restart", "skip-settle", "fail at DescribeAutoScalingGroups (5 s retry sleep before the scan)"},
 	})
 }
